@@ -213,7 +213,8 @@ def lit_fraction(lit):
         a, b = m.split(".")
     else:
         a, b = m, ""
-    v = Fraction(int((a + b) or "0"), 1) * Fraction(10) ** (e - len(b))
+    ee = max(-5000, min(5000, e - len(b)))      # beyond this every comparison made here is already decided
+    v = Fraction(int((a + b) or "0"), 1) * Fraction(10) ** ee
     return -v if neg else v
 
 def sig_digits(lit):
@@ -283,8 +284,10 @@ def expected_dump(text):
         return ("obj", out)
     class Lit(str):
         pass
+    def no_const(c):
+        raise ValueError("NaN/Infinity are not RFC 8259")
     v = json.loads(text.decode("utf-8", "surrogatepass"), object_pairs_hook=pairs, parse_float=Lit, parse_int=Lit,
-                   strict=False)
+                   parse_constant=no_const, strict=False)
     return v
 
 def match_dump(exp, d):
